@@ -68,11 +68,11 @@ func (m *Model) GetPosition(dir traits.OpenClosePosition_Direction, opts ...reso
 
 func (m *Model) UpdatePositions(positions *traits.OpenClosePositions, opts ...resource.WriteOption) (*traits.OpenClosePositions, error) {
 	// preset handling
-	states := positions.States
-	if positions.Preset != nil {
-		preset, presetPositions := m.presetForName(positions.Preset.Name)
+	states := positions.GetStates() // (getters: a request may leave the positions out altogether)
+	if positions.GetPreset() != nil {
+		preset, presetPositions := m.presetForName(positions.GetPreset().GetName())
 		if preset == nil {
-			return nil, status.Errorf(codes.InvalidArgument, "preset %q not found", positions.Preset.Name)
+			return nil, status.Errorf(codes.InvalidArgument, "preset %q not found", positions.GetPreset().GetName())
 		}
 		// not written into the caller's message: it would then share the preset's positions with the model
 		states = presetPositions
